@@ -27,7 +27,9 @@ LEVEL_NOTE = ("The allocation-failure behaviour is NOT modelled in Lean (the Wor
 TECHNIQUE = "Lean 4 proof of the model's drop exits + exhaustive n-th-allocation fault injection into the real code judged by the Lean spec monitor"
 DESIGN_REF = "§5 C19"
 project = WP.make_project(ID)
-relevant_verdict = WP.make_relevant(ID)
+# every case holds ONE allocation failure: whatever is wrong with a packet that leaves the proxy afterwards (judged when it is popped or
+# transmitted, by the rules of the other properties) is a consequence of that failure
+relevant_verdict = WP.make_relevant(ID, also=("C06", "C02", "C04", "C11", "C17", "C13", "C03", "C01", "C05"))
 
 
 def base_cfg(rng, rewrites, ttl, types=None):
@@ -74,6 +76,12 @@ def s_local(exe, rng):
     return h, "rq 0 " + h.make_request(0, code=code, user=user, extra=extra).hex()
 
 
+def s_eap(exe, rng):
+    """an Access-Request whose EAP-Message lengths disagree with the EAP header, for a realm that HAS a server: rejected, never forwarded"""
+    h = start(exe, rng, base_cfg(rng, rng.random() < 0.3, False))
+    return h, "rq 0 " + h.make_request(0, code=1, user=b"bob@example.org", pwd=False, extra=WH.eap_attrs(rng, valid=False)).hex()
+
+
 def s_dup(exe, rng):
     cfg = base_cfg(rng, False, False)
     cfg.clients[0]["dup"], cfg.clients[0]["dup_explicit"] = 30, True
@@ -95,7 +103,7 @@ def s_reply(exe, rng):
     h = start(exe, rng, base_cfg(rng, False, False))
     h.rq(0, h.make_request(0, code=rng.choice([1, 4]), user=b"bob@example.org"))
     if not h.outstanding:
-        return h, "idle"
+        return h, "pop 0"
     ent = h.outstanding[-1]
     h.send("writer " + ent[0])
     return h, "reply %s %s" % (ent[0], h.make_reply(ent).hex())
@@ -107,7 +115,7 @@ def s_reply_hidden(exe, rng):
     h = start(exe, rng, cfg)
     h.rq(0, h.make_request(0, code=1, user=b"bob@local"))
     if not h.outstanding:
-        return h, "idle"
+        return h, "pop 0"
     ent = h.outstanding[-1]
     h.send("writer " + ent[0])
     sv, fw = h.srv(ent[0]), ent[2]
@@ -141,13 +149,18 @@ def s_udp(exe, rng):
     return h, "udpsend 0 " + h.make_request(0, code=1, user=b"bob@example.org", pwd=False, extra=[]).hex()
 
 
-SCENARIOS = [("plain", s_plain), ("rewrites", s_rewrites), ("pwd-chap-eap", s_pwd), ("local", s_local), ("dup", s_dup), ("reply", s_reply),
+SCENARIOS = [("eap-invalid", s_eap), ("plain", s_plain), ("rewrites", s_rewrites), ("pwd-chap-eap", s_pwd), ("local", s_local), ("dup", s_dup), ("reply", s_reply),
              ("reply-hidden", s_reply_hidden), ("writer", s_writer), ("udp", s_udp)]
 
 
-def run_one(exe, name, fn, seed, n):
+def _toks(out, prefix):
+    return [t for t in out.split(" | ")[0].split(" ##")[0].split() if t.startswith(prefix)]
+
+
+def run_one(exe, name, fn, seed, n, base=None):
     rng = random.Random(seed)
     h, target = fn(exe, rng)
+    at = len(h.s.lines)
     out = h.send("fault %d %s" % (n, target))
     m = re.search(r"allocs:(\d+)", out)
     allocs = int(m.group(1)) if m else 0
@@ -167,6 +180,31 @@ def run_one(exe, name, fn, seed, n):
                 for s in h.cfg.servers:
                     h.send("fault -1 writer " + s["name"])
             h.send("fault -1 idle")
+    if base is not None and not h.s.dead and len(base.lines) >= len(h.s.lines):
+        # what left the proxy in this run, next to what leaves it when no allocation fails (same configuration, same packets, same random numbers)
+        pairs = []
+        for i in range(at, len(h.s.lines)):
+            if base.lines[i].split(" ", 2)[2:] != h.s.lines[i].split(" ", 2)[2:]:
+                break
+            mine, ref = h.s.outs[i], base.h[i]
+            fb = {":".join(t.split(":")[:3]): t.split(":")[3] for t in _toks(ref, "fwd:")}
+            for t in _toks(mine, "fwd:"):
+                k = ":".join(t.split(":")[:3])
+                if k in fb:
+                    pairs.append((fb[k], t.split(":")[3]))
+                elif not fb:
+                    pairs.append(("-" * 40, t.split(":")[3]))     # forwarded here, not forwarded at all without the fault
+            for a, b in zip(_toks(ref, "out:"), _toks(mine, "out:")):
+                pairs.append((a[4:], b[4:]))
+        live = lambda o: (re.search(r" live:(\S+)", o) or [None, None])[1]
+        mine, ref = live(h.s.outs[-1]), live(base.h[-1])
+        if mine and ref and mine != "-":
+            h.send("faultleak %s %s" % (ref, mine))
+        for a, b in pairs:
+            if a != b and len(a) >= 40 and len(b) >= 40:
+                a = "-" if a.startswith("-") else a
+                h.send("faultcmp %s %s" % (a, b))
+                h.tag("sent-differently-under-fault")
     c = h.finish(kind=name, n=min(n, 999), site=(failed[0] if failed else "none"), outcome=("died" if died else "returned"))
     if failed:
         c.tags["hit"] = 1
@@ -180,7 +218,8 @@ def gen_run(exe, rng, tier):
         counts = list(ex.map(lambda j: run_one(exe, j[0], j[1], j[2], -1), jobs))
     work = [(j, n) for j, (c, allocs) in zip(jobs, counts) for n in range(allocs)]
     with ThreadPoolExecutor(14) as ex:
-        res = list(ex.map(lambda w: run_one(exe, w[0][0], w[0][1], w[0][2], w[1])[0], work))
+        basecase = {j: c for j, (c, allocs) in zip(jobs, counts)}
+        res = list(ex.map(lambda w: run_one(exe, w[0][0], w[0][1], w[0][2], w[1], basecase[w[0]])[0], work))
     return [c for c, _ in counts] + res
 
 
